@@ -10,7 +10,9 @@
                       the column *names* of the proved stack discipline against the logged tables;
                       the coefficient function of the composed symbolic tensors against the Coq denotation,
                       the term table and the term list
-  oracle          TTNO(tree, terms).todense(order) vs dense sum of krons vs Mpo(chain).todense(), 1e-9
+  oracle          TTNO(tree, terms).todense(order) vs dense sum of krons vs Mpo(chain).todense(), 1e-9;
+                  HISTORY stream: sequences of 3-5 constructions inside ONE process sharing dof names / sizes but
+                  differing in basis kind and parameters, trees and algorithms; first object re-checked at the end
 """
 import json
 import os
@@ -160,7 +162,7 @@ def gen_tree(rng, max_real):
             return ["el", d, 2]
         if r < 0.7:
             return ["spin", d, 2]
-        return ["sho", d, rng.choice([2, 3])]
+        return ["sho", d, rng.choice([2, 3]), rng.choice([0.5, 1.0, 1.0, 2.0, 0.25]), rng.choice([0.0, 0.0, 0.0, 0.5, -1.0])]
 
     nodes = []
     for i in range(n):
@@ -246,6 +248,57 @@ def gen_terms(rng, reals, nmax):
             t.update(fac())
             terms.append(t)
     return terms
+
+
+def gen_history(rng, sid):
+    """3-5 constructions sharing dof names and sizes, differing in basis kind / parameters, trees, algorithms"""
+    ndof = rng.randint(2, 4)
+    nbas = [2] + [rng.choice([2, 3, 4]) for _ in range(ndof - 1)]
+    omegas = [0.5, 1.0, 2.0, 0.25, 1.5]
+    steps = []
+    for istep in range(rng.randint(3, 5)):
+        basis = []
+        for d in range(ndof):
+            name = "h%d" % d
+            if nbas[d] == 2 and rng.random() < 0.4:
+                basis.append(["spin", name, 2])
+            elif nbas[d] > 2 and rng.random() < 0.25:
+                xi = rng.choice([-1.0, -2.0, 0.0])
+                basis.append(["sdvr", name, nbas[d], xi, xi + rng.choice([2.0, 3.0, 5.0])])
+            else:
+                basis.append(["sho", name, nbas[d], omegas[(istep + d + rng.randrange(2)) % len(omegas)], rng.choice([0.0, 0.0, 0.5, -1.0])])
+        if all(b[0] == "spin" for b in basis):
+            basis[-1] = ["sho", basis[-1][1], nbas[-1], omegas[istep % len(omegas)], 0.0]
+        syms = {"spin": ["sigma_x", "sigma_z"], "sho": ["x", "x^2", "p^2", "x", r"b^\dagger b"], "sdvr": ["x", "x^2", "p^2"]}
+
+        def fac():
+            return {"num": rng.choice([1, 3, -1, 5, -3]), "exp": rng.choice([0, 1, 2, 3, -1])}
+        terms = []
+        for b in basis:
+            t = {"ops": [[rng.choice(syms[b[0]]), b[1]]]}
+            t.update(fac())
+            terms.append(t)
+        for _ in range(rng.randint(1, 2)):
+            a, b = rng.sample(basis, 2)
+            t = {"ops": [["sigma_z" if a[0] == "spin" else "x", a[1]], ["sigma_x" if b[0] == "spin" else "x", b[1]]]}
+            t.update(fac())
+            terms.append(t)
+        r = rng.random()
+        if r < 0.6:
+            tree = {"builder": rng.choice(["linear", "binary", "t3ns", "mctdh"]), "order": rng.choice([2, 3]), "contract": rng.random() < 0.5}
+        else:
+            idx = list(range(ndof))
+            rng.shuffle(idx)
+            leaves = []
+            while idx:
+                k = rng.choice([1, 1, 2])
+                leaves.append({"b": idx[:k], "ch": []})
+                idx = idx[k:]
+            if len(leaves) > 1 and rng.random() < 0.5:           # hang the last leaf below the first
+                leaves[0]["ch"].append(leaves.pop())
+            tree = {"nested": {"b": [-1], "ch": leaves}}
+        steps.append({"basis": basis, "tree": tree, "algo": rng.choice(["Hopcroft-Karp", "Hungarian", "qr"]), "terms": terms})
+    return {"id": sid, "steps": steps}
 
 
 def term_coeffs(terms):
@@ -385,7 +438,8 @@ def run(ctx):
             nb = rng.randint(2, max_real)
             reals = []
             for d in range(nb):
-                reals.append(["spin", d, 2] if rng.random() < 0.7 else ["sho", d, rng.choice([2, 3])])
+                reals.append(["spin", d, 2] if rng.random() < 0.7 else
+                             ["sho", d, rng.choice([2, 3]), rng.choice([0.5, 1.0, 1.0, 2.0, 0.25]), rng.choice([0.0, 0.0, 0.5])])
             name = rng.choice(["linear", "binary", "mctdh", "mctdh", "t3ns"])
             bd = {"name": name}
             if name == "mctdh":
@@ -455,6 +509,33 @@ def run(ctx):
         for r in data["cases"]:
             by_id[r["id"]] = r
     shutil.rmtree(tmpd, ignore_errors=True)
+    # ---- dense oracle, HISTORY stream: several constructions inside one process (see impl/c02_history.py)
+    nseq = 10 if quick else 80
+    seqs = [gen_history(rng, i) for i in range(nseq)]
+    nhp = 2 if quick else 8
+    hres = impl_pool(ctx, "c02_history.py", [{"sequences": seqs[i::nhp]} for i in range(nhp)], timeout=900)
+    history_bad = []
+    seq_by_id = {q["id"]: q for q in seqs}
+    for (rc_, res_, out_), chunk in zip(hres, [seqs[i::nhp] for i in range(nhp)]):
+        if res_ is None:
+            history_bad.append({"what": "history script failed", "out": (out_ or "")[-1500:], "process": [q["id"] for q in chunk]})
+            continue
+        for q in res_["sequences"]:
+            ev += q["n"]
+            bump("history:sequences")
+            bump("history:constructions", len(seq_by_id[q["id"]]["steps"]))
+            if q["fails"]:
+                history_bad.append({"what": "construction inside a history differs from its dense reference", "sequence": q["id"],
+                                    "fails": q["fails"][:6], "process": [x["id"] for x in chunk]})
+    def history_of(case):
+        """the valid cases its implementation process had built before `case`, then `case` (constructions may depend
+        on what the process did before, so a replay rebuilds them in the same order)"""
+        for ch in chunks:
+            ids = [c["id"] for c in ch]
+            if case["id"] in ids:
+                return [c for c in ch[:ids.index(case["id"])] if not c.get("malformed")] + [case]
+        return [case]
+
     oracle_bad = []
     coq_items = []
     for case in allcases:
@@ -588,12 +669,25 @@ def run(ctx):
                    % (once_bad[0]["len"], once_bad[0]["n"], once_bad[0]["len"]))
         ctx.violation("builders-exactly-once", "theorems C02_partition_concat / C02_builders_exactly_once no longer describe the code (a builder or approximate_partition loses/repeats a basis set)",
                       {"failures": (keyed + once_bad)[:8]}, found=True, repro=rep)
+    if history_bad:
+        hb = history_bad[0]
+        # the replay rebuilds, in one process, everything that process had built up to the failing sequence
+        ids = hb.get("process", [])
+        if "sequence" in hb:
+            ids = ids[:ids.index(hb["sequence"]) + 1]
+        src = open(os.path.join(common.VERIF, "harness", "impl", "c02_history.py")).read()
+        rep = ("C02_INLINE = True\n" + src + "\nres = run_payload(json.loads(" + repr(json.dumps({"sequences": [seq_by_id[i] for i in ids]})) + "))\n"
+               "bad = [(q['id'], f) for q in res['sequences'] for f in q['fails']]\n"
+               "print('constructions checked:', sum(q['n'] for q in res['sequences']), ' failures:', bad[:4])\n"
+               "sys.exit(1 if bad else 0)\n")
+        ctx.violation("ttno-history", "dense oracle (history stream): a TTNO built after other constructions in the same process differs from the dense sum of krons of its own local matrices",
+                      {"failures": [{k: v for k, v in b.items()} for b in history_bad[:4]]}, found=True, repro=rep)
     if oracle_bad:
         c = oracle_bad[0]["case"]
         ctx.violation("ttno-dense", "dense oracle: TTNO differs from the dense sum / chain MPO" + ("; also broken: " + "; ".join(broken) if broken else ""),
                       {"failures": [{k: v for k, v in b.items() if k != "case"} for b in oracle_bad[:5]], "first_case": c,
                        "correspondence": [{k: v for k, v in b.items() if k != "case"} for b in corr_bad[:5]]},
-                      found=True, repro=repro_snippet(c))
+                      found=True, repro=repro_snippet(history_of(c)))
     if (broken or corr_bad) and not oracle_bad:
         what = list(broken)
         if corr_bad:
@@ -616,46 +710,54 @@ import numpy as np
 from renormalizer import Op, Model, Mpo, BasisHalfSpin, BasisSHO, BasisSimpleElectron
 from renormalizer.model.basis import BasisDummy
 from renormalizer.tn import BasisTree, TTNO, TreeNodeBasis
-case = json.loads(%r)
+# the cases one implementation process had constructed up to (and including) the failing one, in order
+cases = json.loads(%r)
 def mk(s):
-    kind, dof, nbas = s
-    return {"spin": lambda: BasisHalfSpin(dof), "sho": lambda: BasisSHO(dof, omega=1.0, nbas=nbas),
+    kind, dof, nbas = s[:3]
+    return {"spin": lambda: BasisHalfSpin(dof), "sho": lambda: BasisSHO(dof, omega=(s[3] if len(s) > 3 else 1.0), nbas=nbas, x0=(s[4] if len(s) > 4 else 0.0)),
             "el": lambda: BasisSimpleElectron(dof), "dummy": lambda: BasisDummy(("dummy", dof))}[kind]()
-real = []
-def build(n):
-    bs = [mk(s) for s in n["b"]]
-    real.extend(b for b, s in zip(bs, n["b"]) if s[0] != "dummy")
-    node = TreeNodeBasis(bs)
-    for c in n["ch"]:
-        node.add_child(build(c))
-    return node
-if case.get("tree") is not None:
-    tree = BasisTree(build(case["tree"]))
-else:
-    real = [mk(s) for s in case["basis"]]
-    bd = case["builder"]
-    tree = {"linear": lambda: BasisTree.linear(real), "binary": lambda: BasisTree.binary(real), "t3ns": lambda: BasisTree.t3ns(real),
-            "mctdh": lambda: BasisTree.general_mctdh(real, bd.get("order", 2), contract_primitive=bd.get("contract", False), contract_label=bd.get("label"))}[bd["name"]]()
-terms = [Op(" ".join(s for s, d in t["ops"]), [d for s, d in t["ops"]], t["num"] / 2.0 ** t["exp"]) for t in case["terms"]]
-ref = 0
-for t in case["terms"]:
-    full = np.eye(1)
-    for b in real:
-        syms = [s for s, d in t["ops"] if d == b.dof]
-        full = np.kron(full, np.asarray(b.op_mat(" ".join(syms))) if syms else np.eye(b.nbas))
-    ref = ref + (t["num"] / 2.0 ** t["exp"]) * full
-dense = TTNO(tree, terms, algo=case.get("algo", "Hopcroft-Karp")).todense(real)
-mpo = Mpo(Model(real, terms)).todense()
-scale = max(1.0, np.abs(ref).max())
-e1, e2 = np.abs(dense - ref).max() / scale, np.abs(dense - mpo).max() / scale
-print("TTNO vs sum of krons:", e1, " TTNO vs chain MPO:", e2)
-sys.exit(0 if e1 <= 1e-9 and e2 <= 1e-9 else 1)
+def run(case):
+    real = []
+    def build(n):
+        bs = [mk(s) for s in n["b"]]
+        real.extend(b for b, s in zip(bs, n["b"]) if s[0] != "dummy")
+        node = TreeNodeBasis(bs)
+        for c in n["ch"]:
+            node.add_child(build(c))
+        return node
+    if case.get("tree") is not None:
+        tree = BasisTree(build(case["tree"]))
+    else:
+        real.extend(mk(s) for s in case["basis"])
+        bd = case["builder"]
+        tree = {"linear": lambda: BasisTree.linear(real), "binary": lambda: BasisTree.binary(real), "t3ns": lambda: BasisTree.t3ns(real),
+                "mctdh": lambda: BasisTree.general_mctdh(real, bd.get("order", 2), contract_primitive=bd.get("contract", False), contract_label=bd.get("label"))}[bd["name"]]()
+    terms = [Op(" ".join(s for s, d in t["ops"]), [d for s, d in t["ops"]], t["num"] / 2.0 ** t["exp"]) for t in case["terms"]]
+    ref = 0
+    for t in case["terms"]:
+        full = np.eye(1)
+        for b in real:
+            syms = [s for s, d in t["ops"] if d == b.dof]
+            full = np.kron(full, np.asarray(b.op_mat(" ".join(syms))) if syms else np.eye(b.nbas))
+        ref = ref + (t["num"] / 2.0 ** t["exp"]) * full
+    dense = TTNO(tree, terms, algo=case.get("algo", "Hopcroft-Karp")).todense(real)
+    mpo = Mpo(Model(real, terms)).todense()
+    scale = max(1.0, np.abs(ref).max())
+    return np.abs(dense - ref).max() / scale, np.abs(dense - mpo).max() / scale
+bad = 0
+for i, case in enumerate(cases):
+    e1, e2 = run(case)
+    if not (e1 <= 1e-9 and e2 <= 1e-9):
+        bad += 1
+        print("construction", i, ": TTNO vs sum of krons:", e1, " TTNO vs chain MPO:", e2)
+print(len(cases), "constructions,", bad, "differ")
+sys.exit(1 if bad else 0)
 """
 
 
-def repro_snippet(case):
-    c = {k: v for k, v in case.items() if k in ("tree", "builder", "basis", "terms", "algo")}
-    return REPRO_TMPL % (json.dumps(c),)
+def repro_snippet(cases):
+    keep = ("tree", "builder", "basis", "terms", "algo")
+    return REPRO_TMPL % (json.dumps([{k: v for k, v in c.items() if k in keep} for c in cases]),)
 
 
 def compare_case(case, r, vals):
